@@ -47,6 +47,8 @@ type Contract struct {
 	Unfolds   []*SExp              // exit-time unfold instances
 	Tables    []*TableAx
 	Expand    map[string]bool // defined spec functions expanded by the generator
+	ExitApply []*SExp         // lemma instances assumed at function exit (elaborated in the post state)
+	Steps     []*Clause       // proof steps checked in order at function exit, each assumed for the following
 	FreshFields []*SExp
 	Returns   [][2]*SExp // (returns <result leaf> <term>): exact definition of a result leaf
 	Int       bool
@@ -184,7 +186,9 @@ func (p *Prog) parseContract(x *SExp, pkg string) (*Contract, error) {
 		case "requires":
 			c.Requires = append(c.Requires, lab("req", args))
 		case "ensures":
-			c.Ensures = append(c.Ensures, lab("post", args))
+			cl := lab("post", args)
+			c.Ensures = append(c.Ensures, cl)
+			c.Steps = append(c.Steps, &Clause{Label: "ensures:" + cl.Label, X: cl.X})
 		case "modifies":
 			c.Modifies = append(c.Modifies, args...)
 		case "escapes":
@@ -205,6 +209,12 @@ func (p *Prog) parseContract(x *SExp, pkg string) (*Contract, error) {
 			}
 		case "apply":
 			c.Lemmas = append(c.Lemmas, args...)
+		case "exit-apply":
+			for _, a := range args {
+				c.Steps = append(c.Steps, &Clause{Label: "", X: a})
+			}
+		case "step":
+			c.Steps = append(c.Steps, &Clause{Label: args[0].Atom, X: args[1]})
 		case "expand":
 			for _, a := range args {
 				c.Expand[a.Atom] = true
@@ -504,15 +514,19 @@ var bvBin = map[string]bool{"bvadd": true, "bvsub": true, "bvmul": true, "bvand"
 	"bvudiv": true, "bvurem": true, "bvsdiv": true, "bvsrem": true, "bvshl": true, "bvlshr": true, "bvashr": true,
 	"bvult": true, "bvule": true, "bvugt": true, "bvuge": true, "bvslt": true, "bvsle": true, "bvsgt": true, "bvsge": true}
 
+func intLit(t *Term) bool {
+	return t.S == IntS && (t.Op == "int" || (t.Op == "ite" && intLit(t.Args[1]) && intLit(t.Args[2])))
+}
+
 func coerce(a, b *Term) (*Term, *Term) {
 	if a.S == b.S {
 		return a, b
 	}
-	if a.S.K == SBV && b.Op == "int" {
-		return a, BVConstBig(b.V, a.S.W)
+	if a.S.K == SBV && intLit(b) {
+		return a, coerceTo(b, a.S)
 	}
-	if b.S.K == SBV && a.Op == "int" {
-		return BVConstBig(a.V, b.S.W), b
+	if b.S.K == SBV && intLit(a) {
+		return coerceTo(a, b.S), b
 	}
 	return a, b
 }
@@ -523,6 +537,9 @@ func coerceTo(a *Term, s *Sort) *Term {
 	}
 	if s.K == SBV && a.Op == "int" {
 		return BVConstBig(a.V, s.W)
+	}
+	if s.K == SBV && a.Op == "ite" && intLit(a) {
+		return Ite(a.Args[0], coerceTo(a.Args[1], s), coerceTo(a.Args[2], s))
 	}
 	efail("sort mismatch: have %s want %s in %s", a.S, s, a.Short())
 	return nil
@@ -774,6 +791,9 @@ func (p *Prog) elab(fx *Fx, x *SExp, env *Env) Val {
 		return tv(Extract(w-1, 0, T(0)))
 	case "apply-lemma":
 		return tv(p.applyLemma(fx, x, env))
+	case "fresh-id":
+		// (fresh-id o): the object id o denotes an object allocated after function entry
+		return tv(p.isFresh(fx, T(0)))
 	case "fresh-obj":
 		// the object did not exist on entry
 		v := p.elab(fx, args[0], env)
